@@ -850,7 +850,9 @@ impl ChannelConversionBuffer {
         debug_assert!(range.width_offset == 0);
         let preferred_chunk_size = util::round_down_to_multiple(buffer_size.width, block_width);
         for chunk_start in (0..range.width).step_by(preferred_chunk_size as usize) {
-            let chunk_end = (chunk_start + preferred_chunk_size).min(range.width);
+            let chunk_end = chunk_start
+                .saturating_add(preferred_chunk_size)
+                .min(range.width);
             let chunk_size = chunk_end - chunk_start;
 
             let block_offset = (chunk_start / block_width) as usize;
